@@ -1,6 +1,24 @@
 rc_target("c11_json_tree", flavour="asan")
-plan("C11", [T("c11_json_tree", 4000, 50000)], min_nt=200,
-     rule="value trees: build (API or harness text) -> serialise compact+formatted -> independent reader + re-parse -> compare through getters; duplicate",
-     technique="property-based testing (rapidcheck)",
-     level_text="Generated search.",
-     assumptions=[])
+rc_target("c11_json_api", flavour="asan")
+plan("C11", [T("c11_json_tree", 15000, 150000), T("c11_json_api", 25000, 250000)], min_nt=5000,
+     rule="value trees built through the API or parsed from harness-rendered text, serialised compact and formatted, read back by an "
+          "independent strict RFC 8259 reader and by the library, compared through the public getters; add/get/has/remove/iterate programs "
+          "on one object and one array against an ordered reference",
+     technique="property-based testing (rapidcheck): round-trip oracle with an independent reader, number oracle (identical for <=15 significant "
+               "digits, else within 2^-52 evaluated exactly), model-based API programs, allocator balance per case",
+     level_text="Generated search. Tree part: each generated tree (null/bool/number/string/array/object, depth <= 8, 2% chains of up to 1000 "
+                "containers) is built through the constructors or rendered to JSON text by the harness (own whitespace, \\uXXXX escapes incl. "
+                "surrogate pairs, several number spellings) and parsed; it is serialised compact and formatted (appended to a non-empty buffer), "
+                "both texts are read by the harness' own strict RFC 8259 reader and re-parsed by the library, and every tree is compared with "
+                "the reference through the public getters (types, member order, key and string bytes, booleans, null, numbers by the stated "
+                "oracle); aws_json_value_compare and aws_json_value_duplicate (which must survive destroying the original) are checked; every "
+                "block of the module allocator must be released. API part: programs on one object and one array are compared step by step "
+                "with an ordered reference list. Sampling, not proof: absence of a violation is not established.",
+     assumptions=["NaN and infinities are outside 'finite' and are not generated; out-of-memory is fatal by design and not generated",
+                  "object keys are unique ignoring ASCII letter case (the API refuses to build anything else); duplicate keys in parsed text are not generated",
+                  "'within one part in 2^52' is read as |a-b| <= max(|a|,|b|) * 2^-52 in exact arithmetic",
+                  "a number 'has at most 15 significant decimal digits' when it was generated from such a decimal or when printing it with 15 digits and reading that back gives the same double",
+                  "number literals in harness text are shorter than 64 characters (the vendored parser copies at most 63)",
+                  "nothing is asserted about keys that differ from a member's key only in letter case (header says case sensitive, lookup ignores case), nor about index == size",
+                  "aws_json_value_compare is only called when at most 12 objects are nested (its cost doubles per nested object)",
+                  "the harness re-executes itself with a 1 GiB stack for its own recursive walkers"])
